@@ -190,7 +190,12 @@ fn handle(parts: &[&str]) -> String {
         }
         "format" => {
             let s = unhex(parts[1]);
-            match Typstyle::new(config(parts[2], parts[3], parts[4])).format_content(s) {
+            let mut cfg = config(parts[2], parts[3], parts[4]);
+            if parts.len() > 5 {
+                // optional: the library-only option (a public field of Config, not reachable from the CLI)
+                cfg.blank_lines_upper_bound = num(parts[5]);
+            }
+            match Typstyle::new(cfg).format_content(s) {
                 Ok(r) => format!("ok {}", hex(&r)),
                 Err(_) => "err".into(),
             }
